@@ -19,7 +19,7 @@ RULE = ("modes hdr_write / hdr_http / redirect: every status code 100..999 at le
         "reason bytes taken from the compiled http crate), non-constructible codes, header lists of 0..6 (a few up to 40) "
         "entries with empty names/values and arbitrary bytes (mostly without, some with newline), every destination capacity "
         "0..len+1 for a sample of header lists and redirects, random capacities, Vec destinations with and without existing "
-        "contents, http::Response with distinct lower-case token names; a case is non-trivial when it has at least one header / "
+        "contents, http::Response with lower-case token names, several values under one name included (listed adjacently = HeaderMap iteration order); a case is non-trivial when it has at least one header / "
         "a non-empty location or a bounded destination not larger than the text; distinct = distinct case lines")
 ASSUMPTIONS = [
     "precondition of write_headers (documented, debug_assert! at response.rs:81): no header name equals `status` "
@@ -119,6 +119,10 @@ def rand_http_headers(rng, maxn=6):
         v = rbytes(rng, rng.choice([0, 0, 1, 3, 8, 20]), VALUE_BYTES)
         # HeaderValue keeps the bytes as they are (no trimming in from_bytes)
         hs.append((n, v))
+        # several values under ONE name (Set-Cookie, Link, ...): HeaderMap::iter yields them right after the first value,
+        # so the case lists them adjacently, in insertion order; each value is its own `name: value` line
+        while rng.random() < 0.3 and len(hs) < maxn + 3:
+            hs.append((n, rbytes(rng, rng.choice([0, 1, 5, 12]), VALUE_BYTES)))
     return hs
 
 
